@@ -294,7 +294,7 @@ impl Ctx {
                 "environment".into(),
                 json!({
                     "TZ": std::env::var("TZ").unwrap_or_default(),
-                    "logging_passes": if self.prop == "C20" || std::env::var("VERIF_SINGLE_PASS").is_ok() { vec!["off".to_string()] } else { let mut v: Vec<String> = preliminary_log_levels(self.tier).iter().map(|l| format!("{l} (sink logger, nexrad targets{})", if *l == log::LevelFilter::Trace { "; wall clock set to 1986-07-01" } else { "" })).collect(); v.push("Off, real wall clock (reported)".into()); v },
+                    "logging_passes": if self.prop == "C20" || std::env::var("VERIF_SINGLE_PASS").is_ok() { vec!["off".to_string()] } else { let mut v: Vec<String> = preliminary_log_levels(self.tier).iter().map(|l| format!("{l} (sink logger, nexrad targets{})", if *l == log::LevelFilter::Trace { "; wall clock set to 1986-07-01" } else if *l == log::LevelFilter::Debug { "; byte buffers allocated at odd addresses" } else { "" })).collect(); v.push("Off, real wall clock (reported)".into()); v },
                     "wall_clock": "owned: the harness binary defines clock_gettime; CLOCK_REALTIME answers come from the harness (self-tested against chrono::Utc::now at start-up)",
                     "profile": if cfg!(debug_assertions) { "opt-level 2, overflow-checks on, debug-assertions on" } else { "opt-level 2, overflow-checks on, debug-assertions off" },
                 }),
